@@ -25,14 +25,25 @@ OPS = (
     + ops.SKIP_OPS
     + ops.STRUCT_OPS
     + ops.AUX_OPS
-    + ("cands", "seeds", "sets", "seeds", "sets", "cands", "allseeds", "block", "skip", "succ")
+    + ("cands", "seeds", "sets", "seeds", "sets", "cands", "allseeds", "block", "skip", "succ", "expsets", "expcands", "expseeds")
 )
 
 
 @st.composite
 def _case(draw, max_n):
     nj = draw(gen.networks(max_n=max_n, core_weight=3, kinds=("maa", "multi", "deep", "diamond")))
-    return {"net": nj, "steps": draw(ops.steps(OPS, len(nj["names"]), 2, 7))}
+    n = len(nj["names"])
+    steps = draw(ops.steps(OPS, n, 2, 7))
+    if draw(st.integers(0, 2)) == 0:
+        # template "query a stub, then give it successors by one of the six paths": expand the root (or a level),
+        # query an unexpanded node, then an operation that expands / skips / attaches below it
+        pre = draw(st.sampled_from(([{"op": "succ", "node": 0}], [{"op": "bfs", "node": None, "level": 1, "size": None}], [])))
+        q = draw(ops.steps(("cands", "seeds", "sets", "allseeds"), n, 1, 2))
+        giver = draw(
+            ops.steps(("minskip", "minskip", "skip", "skiprem", "scc", "block", "block_plain", "bfs", "dfs", "min", "attr", "succ", "build"), n, 1, 2)
+        )
+        steps = pre + q + giver + steps[:2]
+    return {"net": nj, "steps": steps}
 
 
 def strategy(tier):
